@@ -404,6 +404,7 @@ def install_patches():
                 draining=bool(scheduler.draining),
                 ran=int(scheduler.run_counter),
                 summary=CUR.__dict__.pop("_summary", None) or {"ntotal": 0, "attr_sum": 0, "cyclic": 0, "attr_unique": True},
+                disk=_disk_event(CUR.world.snapshot()),
             )
         return rc
 
@@ -452,7 +453,7 @@ def install_patches():
     async def finalize(self):
         await orig_finalize(self)
         if CUR is not None:
-            CUR.emit("finalize_end", rc=int(self.returncode.value))
+            CUR.emit("finalize_end", rc=int(self.returncode.value), disk=_disk_event(CUR.world.snapshot()))
 
     builder_mod.Builder.finalize = finalize
 
@@ -568,12 +569,10 @@ async def _declaration(h, step) -> _Decl:
     """
     async with h.db:
         inp = sorted(r.path for r in step._paths("source", raw=True, dynamic=False))
-        out = sorted(
-            r.path for r in step._paths("sink", raw=True, dynamic=False) if r.state.name != "VOLATILE"
-        )
-        vol = sorted(
-            r.path for r in step._paths("sink", raw=True, dynamic=False) if r.state.name == "VOLATILE"
-        )
+        # outputs: what the step itself declares (a stale edge to a former, renamed output that
+        # survived a redefinition is not part of the declaration)
+        out = sorted(r.path for r in step.out_paths(dynamic=False))
+        vol = sorted(r.path for r in step.vol_paths(dynamic=False))
         env = sorted(step.env_deps(dynamic=False))
     return _Decl(inp, env, out, vol)
 
